@@ -7,6 +7,7 @@
    queue1 / queue0 = queue_latest_holder_commitment_txn_for_broadcast(require_funding_seen = true / false)) through the
    corresponding `HolderGate.step` event: `signed=<holder_tx_signed after> queued=<a signature was requested> nfua=<..>`. -/
 import LdkModel.Model.HolderGate
+import LdkModel.Generated.RaaRelease
 import LdkModel.Driver.Util
 namespace Ldk.Driver
 open Ldk
@@ -31,6 +32,14 @@ def c05hStep : List String → String
     match ev.bind (HolderGate.step s0) with
     | none => "bad-op"
     | some s => s!"signed={b01 s.flags.holderTxSigned} queued={b01 (!s.signReq.isEmpty)} nfua={b01 (HolderGate.noFurtherUpdatesAllowed s.flags)}"
+  -- `rel <next_transaction_number>`: the index get_last_revoke_and_ack releases (GENERATED releaseIdx)
+  | ["rel", next] => s!"idx={RaaRelease.releaseIdx (nat! next)}"
+  -- `reest <next_transaction_number> <msg.next_remote_commitment_number>`: channel_reestablish's required_revoke decision (GENERATED)
+  | ["reest", next, msgN] =>
+    match RaaRelease.requiredRevoke (nat! msgN) (RaaRelease.ourCommitmentTransaction (nat! next)) with
+    | .none => "none"
+    | .retransmit => s!"retransmit idx={RaaRelease.releaseIdx (nat! next)}"
+    | .error => "error"
   | _ => "bad-op"
 
 def c05h : Drv := { σ := Unit, init := (), step := fun _ ws => ((), c05hStep ws) }
